@@ -34,7 +34,7 @@ def case(draw):
     K = draw(st.one_of(st.integers(1, 15), st.sampled_from([1, 2, 15])))
     bound = draw(st.sampled_from(['inf', 'moderate', 'tight', 'inf', 'moderate', 'tight', 'zero']))
     return {'x': x, 'y': y, 'K': K, 'bound': bound, 'vector': draw(st.booleans()) and d == 1,
-            'layout': draw(st.sampled_from(['C', 'C', 'F', 'strided', 'readonly'])), 'dtype': draw(st.sampled_from(['f8', 'f8', 'f4', 'i8', 'i2']))}
+            'layout': draw(st.sampled_from(['C', 'C', 'F', 'strided', 'readonly'])), 'dtype': draw(st.sampled_from(['f8', 'f8', 'f4', 'i8', 'i2', 'f8/i8', 'i8/f8', 'f8/f4']))}
 
 
 def oracle(case, rec):
@@ -47,6 +47,15 @@ def oracle(case, rec):
     idt = {'i8': np.int64, 'i2': np.int16}.get(case.get('dtype', 'f8'))
     if idt is not None:                        # integer-valued features stored as integers (counts, sample indices)
         x, y = np.round(x * 8), np.round(y * 8)
+    mixed = case.get('dtype', 'f8') if '/' in case.get('dtype', 'f8') else None
+    if mixed:                                  # the two sets stored differently (a quantised set matched against a float one)
+        x, y = x * 8, y * 8
+        if mixed.startswith('i8'):
+            x = np.round(x)
+        if mixed.endswith('i8'):
+            y = np.round(y)
+        if mixed.endswith('f4'):
+            y = y.astype(np.float32).astype(float)
     K = int(case['K'])
     D = np.sqrt(((x[:, None, :] - y[None, :, :]) ** 2).sum(axis=2))
     if case['bound'] == 'inf':
@@ -62,6 +71,9 @@ def oracle(case, rec):
         xa, ya = xa.astype(np.float32), ya.astype(np.float32)
     if idt is not None:
         xa, ya = xa.astype(idt), ya.astype(idt)
+    if mixed:
+        T = {'f8': np.float64, 'i8': np.int64, 'f4': np.float32}
+        xa, ya = xa.astype(T[mixed.split('/')[0]]), ya.astype(T[mixed.split('/')[1]])
     from .. import gens
     xa, ya = gens.relayout(xa, case.get('layout', 'C')), gens.relayout(ya, case.get('layout', 'C'))
     rec.cls('layout=' + case.get('layout', 'C'))
